@@ -573,18 +573,25 @@ func (vm *VirtualMachine) eval(ctx context.Context) error {
 			vm.push(object.NewList(items))
 		case op.BuildMap:
 			count := vm.fetch()
-			items := make(map[string]object.Object, count)
+			// The pairs lie on the stack in source order and are popped last
+			// to first. They are entered in source order, so that of two
+			// equal keys the one written later gives the value
+			keys := make([]object.Object, count)
+			values := make([]object.Object, count)
 			for i := uint16(0); i < count; i++ {
-				v := vm.pop()
-				k := vm.pop()
-				items[k.(*object.String).Value()] = v
+				values[count-1-i] = vm.pop()
+				keys[count-1-i] = vm.pop()
+			}
+			items := make(map[string]object.Object, count)
+			for i, k := range keys {
+				items[k.(*object.String).Value()] = values[i]
 			}
 			vm.push(object.NewMap(items))
 		case op.BuildSet:
 			count := vm.fetch()
 			items := make([]object.Object, count)
 			for i := uint16(0); i < count; i++ {
-				items[i] = vm.pop()
+				items[count-1-i] = vm.pop()
 			}
 			// An item that cannot be hashed is an error, not the value of the literal
 			set := object.NewSet(items)
